@@ -121,9 +121,12 @@ class _Reader:
         return b
 
     def le(self, n):
+        # arithmetic instead of shifts / ors: same value, and executable symbolically without enumeration
         r = 0
+        m = 1
         for i in range(n):
-            r = r | (self.byte() << (8 * i))
+            r = r + self.byte() * m
+            m = m * 256
         return r
 
     def sle(self, n):
@@ -145,7 +148,11 @@ class _Reader:
 
 
 def _le(v, n):
-    return [(v >> (8 * i)) & 0xff for i in range(n)]
+    out = []
+    for i in range(n):
+        out.append(v % 256)
+        v = v // 256
+    return out
 
 
 def _sle(v, n):
@@ -345,13 +352,13 @@ class CScript:
                     pushdata_type = 'PUSHDATA2'
                     if i + 1 >= n:
                         raise CScriptInvalidError('PUSHDATA2: missing data length')
-                    datasize = b[i] + (b[i + 1] << 8)
+                    datasize = b[i] + b[i + 1] * 256
                     i += 2
                 else:
                     pushdata_type = 'PUSHDATA4'
                     if i + 3 >= n:
                         raise CScriptInvalidError('PUSHDATA4: missing data length')
-                    datasize = b[i] + (b[i + 1] << 8) + (b[i + 2] << 16) + (b[i + 3] << 24)
+                    datasize = b[i] + b[i + 1] * 256 + (b[i + 2] << 16) + (b[i + 3] << 24)
                     i += 4
                 if i + datasize > n:
                     raise CScriptTruncatedPushDataError(
